@@ -234,10 +234,27 @@ func runC13Replaced(x *mc.X) {
 		logObs(x, "GET 10 s stale (origin fails: "+fail1+")", get(w, U))
 		world.Advance(secs(1))
 	}
-	answer(w, RS{Status: 200, H: H("Cache-Control", cc("max-age=10", b), "ETag", `"b"`)})
+	// the directives in force change either with a full reply that replaces the entry, or with a 304 whose
+	// Cache-Control comes on two field lines (they replace the stored field together, RFC 9111 §3.2)
+	how := mc.Pick(x, "replaced-by", []string{"200", "304 with the directives on a second Cache-Control line"})
+	if how == "200" {
+		answer(w, RS{Status: 200, H: H("Cache-Control", cc("max-age=10", b), "ETag", `"b"`)})
+	} else {
+		answerFn(w, func(o *world.Origin, c *world.Call) (*http.Response, error) {
+			if c.Header.Get("If-None-Match") != `"a"` {
+				return o.Respond(c, RS{Status: 200, H: H("Cache-Control", "no-store")}), nil
+			}
+			return o.Respond(c, RS{Status: 304, NoTok: true, H: hdrIf(H("ETag", `"a"`, "Cache-Control", "max-age=10"), "Cache-Control", b)}), nil
+		})
+	}
 	o3 := get(w, U)
-	logObs(x, "GET (origin recovered: 200 max-age=10, "+b+")", o3)
-	if o3.Err != nil || o3.Panic != nil || o3.Tok == "" || o3.Tok == o1.Tok || len(o3.Calls) != 1 {
+	logObs(x, "GET (origin recovered: "+how+": max-age=10, "+b+")", o3)
+	if how != "200" {
+		if o3.Err != nil || o3.Panic != nil || o3.Tok != o1.Tok || len(o3.Calls) != 1 || o3.Calls[0].RespCode != 304 {
+			x.Note("freshening did not happen as scripted")
+			return
+		}
+	} else if o3.Err != nil || o3.Panic != nil || o3.Tok == "" || o3.Tok == o1.Tok || len(o3.Calls) != 1 {
 		x.Note("replacement did not happen as scripted")
 		return
 	}
@@ -245,19 +262,19 @@ func runC13Replaced(x *mc.X) {
 	failing(fail2)
 	o4 := get(w, U)
 	logObs(x, "GET 10 s stale (origin fails: "+fail2+")", o4)
-	x.Nontrivial(fmt.Sprintf("replaced/%s -> %s", a, b))
-	x.State("replaced", a, b, fail1, fail2, transports, obsClass(o4))
+	x.Nontrivial(fmt.Sprintf("replaced/%s -> %s/%s", a, b, how))
+	x.State("replaced", a, b, how, fail1, fail2, transports, obsClass(o4))
 	if o4.Panic != nil {
 		return
 	}
 	must := b == "stale-if-error=100"
 	served := o4.Err == nil && o4.Tok == o3.Tok
 	switch {
-	case o4.Err == nil && o4.Tok == o1.Tok:
+	case how == "200" && o4.Err == nil && o4.Tok == o1.Tok:
 		x.Failf("the replaced response is served on failure", "first %q, replacement %q: %s", a, b, o4)
 	case must && !served:
-		x.Failf("stale-if-error not honoured after the entry was replaced (first: "+a+")", "replacement carries %q, 10 s stale, failure %s: %s", b, fail2, o4)
+		x.Failf("stale-if-error not honoured after the entry was replaced (first: "+a+", by "+how+")", "replacement carries %q, 10 s stale, failure %s: %s", b, fail2, o4)
 	case !must && served:
-		x.Failf("stored response served on failure outside the rule after the entry was replaced (first: "+a+")", "replacement carries %q, 10 s stale, failure %s: %s", b, fail2, o4)
+		x.Failf("stored response served on failure outside the rule after the entry was replaced (first: "+a+", by "+how+")", "replacement carries %q, 10 s stale, failure %s: %s", b, fail2, o4)
 	}
 }
